@@ -168,6 +168,94 @@ def r4(ctx):
             ctx.ob('C01.R4', fn, nid, ok, 'm_crcValid := %s' % k, 'only the CRC comparison may validate a part')
 
 
+
+def raw_symbol_rules(ctx, rid_crc, rid_echo):
+    """two ordering clauses of handleReceive about the raw (still escaped) symbol:
+    rid_crc   no exit between the reception of a symbol and the CRC update other than the transitions that restart
+              reception (ready, skip, no signal) or the own AUTO-SYN: a `return result` there drops a symbol from the CRC
+    rid_echo  the echo comparison sees the symbols as sent and received: no path assigns the received or the sent symbol
+              (other than the device, or the arbitration winner's first byte) before the comparison, and no exit lies
+              between the CRC-relevant reception and the comparison"""
+    fb = ctx.fb
+    fn = fb.fn(A.HR)
+    states, _ = A.bus_states(fb)
+    rmap = A.role_map(fn)
+    recvv = [k for k, v in rmap.items() if v == 'recvSymbol']
+    sentv = [k for k, v in rmap.items() if v == 'sentSymbol']
+    ups = fn.calls('ebusd::SymbolString::updateCrc', suffix=False)
+    if len(ups) != 1 or not recvv or not sentv:
+        raise AnalysisBroken('%s: updateCrc call / symbol variables of handleReceive not recognised' % rid_crc)
+    recvv, sentv = recvv[0], sentv[0]
+    # the switch whose arms hold the CRC update
+    swb = None
+    for b in fn.blocks.values():
+        if b.tk == 'SwitchStmt' and any(s is not None and fn.block_of(ups[0]) in fn.reach([s], cut_blocks=[x for x in b.succs if x is not None and x != s])
+                                         for s in b.succs):
+            if swb is None or len(b.succs) < len(fn.blocks[swb].succs):
+                swb = b.id
+    if swb is None:
+        raise AnalysisBroken('%s: switch around the CRC update not found' % rid_crc)
+    cut = [(swb, j) for j in range(len(fn.blocks[swb].succs))]
+    sends = set(c for c in fn.all('CXXMemberCallExpr') if (fn.nodes[c].get('callee') or '').endswith('Device::send'))
+    restart = {'bs_ready', 'bs_skip', 'bs_noSignal'}
+    if rid_crc:
+        n = 0
+        for r in fn.all('ReturnStmt'):
+            if not fn.reaches_point(fn.entry, fn.pos(r), set(), cut_edges=cut):
+                continue    # lies behind the CRC update
+            n += 1
+            rv = fn.nodes[r].get('val')
+            c = fn.nodes.get(fn.strip(rv), {}) if rv is not None else {}
+            if (c.get('callee') or '').endswith('::setState') and c.get('args'):
+                tgt = states.get(fn.val(c['args'][0]))
+                ok = tgt in restart
+                ctx.ob(rid_crc, fn, r, ok, 'exit before the CRC update through setState(%s)' % (tgt or fn.key(c['args'][0])),
+                       'only transitions that restart reception may leave before the symbol is added to the CRC')
+            else:
+                # a plain return: only for the own AUTO-SYN (the path passed the device send call)
+                plain = fn.reaches_point(fn.entry, fn.pos(r), sends, cut_edges=cut)
+                if plain:
+                    # guarded by a flag that is false initially and set only behind the AUTO-SYN transmission
+                    for k, pol in set((a[0], a[1]) for a in fn.atoms(r)):
+                        if not pol:
+                            continue
+                        sets = [(n2, r2, o2) for n2, d2, r2, o2, l2 in fn.assignments() if d2 and d2.split(':')[-1] == k]
+                        if sets and all((o2 == 'init' and fn.val(r2) == 0) or
+                                        (o2 == '=' and fn.val(r2) == 1 and not fn.reaches_point(fn.entry, fn.pos(n2), sends))
+                                        for n2, r2, o2 in sets) and any(o2 == '=' for n2, r2, o2 in sets):
+                            plain = False
+                ctx.ob(rid_crc, fn, r, not plain, 'exit before the CRC update without state change',
+                       'reachable for a symbol received from the bus: %s (such a symbol would be missing in the CRC)' % plain)
+        if n < 4:
+            raise AnalysisBroken('%s: only %d exits before the CRC update found' % (rid_crc, n))
+    if rid_echo:
+        cmps = [x for x in fn.all('BinaryOperator') if fn.nodes[x].get('op') in ('!=', '==') and
+                {fn.key(fn.nodes[x]['lhs']), fn.key(fn.nodes[x]['rhs'])} == {recvv, sentv}]
+        # the echo check proper is the one outside the arbitration arm (not inside the region of state ready)
+        sw = A.main_switch(fn)
+        regs = A.regions(fn, sw)
+        inv = {v: k for k, v in states.items()}
+        cmps = [x for x in cmps if fn.block_of(x) not in regs.get(inv['bs_ready'], set())]
+        if len(cmps) != 1:
+            raise AnalysisBroken('%s: echo comparison of handleReceive not recognised (%d candidates)' % (rid_echo, len(cmps)))
+        echo = cmps[0]
+        recvs = set(c for c in fn.all('CXXMemberCallExpr') if (fn.nodes[c].get('callee') or '').endswith('Device::recv'))
+        bad = []
+        for nid, d, rhs, op, lhs in fn.assignments():
+            if not d or d.split(':')[-1] not in (recvv, sentv) or op == 'init':
+                continue
+            # killed by a later reception; the arbitration winner's first byte is the sent symbol by definition
+            if d.split(':')[-1] == sentv and rhs is not None and 'getMaster()' in fn.key(rhs):
+                continue
+            p = fn.pos(nid)
+            if p is not None and fn.reaches_point(p[0], fn.pos(echo), recvs, start_idx=p[1] + 1):
+                bad.append(fn.text(nid)[:60])
+        ctx.ob(rid_echo, fn, echo, not bad, 'echo comparison on the raw symbols',
+               'assignments reaching the comparison: %s' % bad if bad else 'received and sent symbol are unmodified at the comparison')
+        late = not fn.reaches_point(fn.entry, fn.pos(echo), set(), cut_edges=cut)
+        ctx.ob(rid_echo, fn, echo, not late, 'echo comparison precedes CRC update and unescaping',
+               'the comparison is reached before the per-symbol processing: %s' % (not late))
+
 def r6(ctx):
     ctx.rule('C01.R6', 'setState clears command, response, CRC, CRC-valid flag, send position and answering flag on every '
              'path that enters ready or skip, clears the CRC when entering recvRes/sendRes, and clears the pending escape '
@@ -352,6 +440,10 @@ def r9(ctx):
 
 
 def run(ctx):
+    ctx.rule('C01.R12', 'no exit of handleReceive lies between the reception of a symbol and the CRC update other than the '
+             'transitions that restart reception (ready, skip, no signal) and the own AUTO-SYN: every other received symbol '
+             'is part of the CRC', minimum=4)
+    raw_symbol_rules(ctx, 'C01.R12', None)
     r7(ctx)
     r9(ctx)
     r1(ctx)
